@@ -286,7 +286,21 @@ func ledgerGen(prop string) func(rng *core.Rng, tier string) *harness.Plan {
 				p.Ops = append(p.Ops, harness.Op{At: int64(rng.Dur(15*time.Second, dur) / time.Microsecond), Kind: "keyclash", S: fmt.Sprint("k", i), N: rng.IntN(9), M: rng.IntN(9), A: int64(rng.IntN(1000)), B: int64(rng.IntN(4000))})
 			}
 		}
-		if prop == "C16" {
+		if prop == "C16" && rng.Chance(0.15) {
+			// an asset that was deposited and then withdrawn completely (recorded total exactly zero), then a
+			// deposit above its capacity; nothing else touches that asset in this run
+			p.Params["emptied_asset"] = 1
+			for i := range p.Ops {
+				if p.Ops[i].Kind == "deposit" {
+					p.Ops[i].A = 2 + p.Ops[i].A%2
+				}
+			}
+			at := rng.Dur(3*time.Second, 8*time.Second)
+			for step := int64(0); step < 3; step++ {
+				p.Ops = append(p.Ops, harness.Op{At: int64(at / time.Microsecond), Kind: "emptyasset", S: fmt.Sprint("e", step), N: rng.IntN(9), A: step, B: int64(rng.IntN(2))})
+				at += rng.Dur(6*time.Second, 9*time.Second)
+			}
+		} else if prop == "C16" {
 			// capped-asset scenarios (BTC capacity 2500, ETH 5000)
 			k := 1 + rng.IntN(3)
 			for i := 0; i < k; i++ {
@@ -465,6 +479,52 @@ func ledgerExec(prop string) func(p *harness.Plan) *harness.Outcome {
 			r.submit(r.node(op.N), tx, false)
 			r.out.Faults[fmt.Sprintf("workload.capdeposit.mode%d", op.A)]++
 		}
+		var emptied *cluster.Coin
+		r.extra["emptyasset"] = func(op harness.Op, idx int) {
+			asset, capacity := cluster.AssetETH, 5000
+			switch op.A {
+			case 0:
+				tx, coin := c.MakeDeposit(asset, common.NewIntegerFromString("100"), "empty-"+op.S, 0, []int{0}, 1)
+				r.coins[idx] = []*cluster.Coin{coin}
+				r.txOf[idx] = tx
+				emptied = coin
+				r.submit(r.node(op.N), tx, true)
+			case 1:
+				if emptied == nil || emptied.Spent || !c.FinalizedEverywhere(emptied.Tx) {
+					r.out.Probes["emptied_asset_scenario_abandoned"]++
+					emptied = nil
+					return
+				}
+				emptied.Spent = true
+				tx := common.NewTransactionV5(emptied.Asset)
+				tx.AddInput(emptied.Tx, emptied.Index)
+				tx.Outputs = append(tx.Outputs, &common.Output{Type: common.OutputTypeWithdrawalSubmit, Amount: emptied.Amount, Withdrawal: &common.WithdrawalData{Address: "w-" + op.S, Tag: ""}})
+				signed := &common.SignedTransaction{Transaction: *tx}
+				if err := signed.SignUTXO(emptied.UTXO, []*common.Address{c.User(0)}); err != nil {
+					emptied = nil
+					return
+				}
+				ver := signed.AsVersioned()
+				r.txOf[idx] = ver
+				r.submit(r.node(op.N), ver, true)
+				r.out.Probes["asset_withdrawn_completely"]++
+			default:
+				if emptied == nil || r.txOf[idx-1] == nil || !c.FinalizedEverywhere(r.txOf[idx-1].PayloadHash()) {
+					for j := idx - 1; j >= 0; j-- {
+						if r.plan.Ops[j].Kind == "emptyasset" && r.plan.Ops[j].A == 1 && r.txOf[j] != nil && c.FinalizedEverywhere(r.txOf[j].PayloadHash()) {
+							goto ready
+						}
+					}
+					r.out.Probes["emptied_asset_scenario_abandoned"]++
+					return
+				}
+			ready:
+				tx, _ := c.MakeDeposit(asset, common.NewIntegerFromString(fmt.Sprint(capacity+500-int(op.B)*499)), "over-"+op.S, 0, []int{0}, 1)
+				r.txOf[idx] = tx
+				r.submit(r.node(op.N), tx, false)
+				r.out.Faults["workload.deposit_above_capacity_into_emptied_asset"]++
+			}
+		}
 		r.schedule()
 		c.Run(time.Duration(p.P("dur_ms", 40000)) * time.Millisecond)
 		fin, total := 0, 0
@@ -490,7 +550,7 @@ func init() {
 	harness.Register(&harness.Property{
 		ID:    "C16",
 		Level: "exploration",
-		Rule: "seeded cluster runs with deposits, transfers, withdrawal submissions and double spends plus 1-3 capped-asset scenarios per run (two deposits of BTC/ETH that fit together; that each fit but together exceed the capacity; a single deposit above the capacity of a possibly unrecorded asset; the same asset announced with different chain information), submitted to the same node (one batch) or to different nodes (concurrent proposals), under network faults and crash/restart; tripwire on every finalization write of a validated batch; " +
+		Rule: "seeded cluster runs with deposits, transfers, withdrawal submissions and double spends plus 1-3 capped-asset scenarios per run (two deposits of BTC/ETH that fit together; that each fit but together exceed the capacity; a single deposit above the capacity of a possibly unrecorded asset; the same asset announced with different chain information; in 15% of the runs instead an asset that is deposited, withdrawn completely and then offered a deposit above its capacity), submitted to the same node (one batch) or to different nodes (concurrent proposals), under network faults and crash/restart; tripwire on every finalization write of a validated batch; " +
 			"non-trivial = at least one finalization write and one accepted transaction finalized; distinct = canonical-log digests",
 		Components: clusterComponents,
 		Assume:     clusterAssume,
